@@ -349,8 +349,8 @@ def verify_graph_models():
     fn = 'hamiltonian.linear_fermionic_mpo'
     n0 = len(out); t0 = time.time()
     try:
-        for ftype in ('c', 'a'):
-            for L in (1, 2, 3, 4, 5):
+        for ftype in ('c', 'a', 'create', 'creation'):
+            for L in ((1, 2, 3, 4, 5) if len(ftype) == 1 else (2, 3)):
                 fs = sympy.symbols(f'f0:{L}')
                 box = {}
                 MP = ham.MPO
